@@ -439,11 +439,18 @@ fn add_intersecting_format2_patches(
     };
 
     for (order, e) in entries.iter().enumerate() {
+        // Evaluate (and cache) every entry in index order, including ignored ones. Child indices
+        // only ever refer to prior entries, so by the time an entry is evaluated all of its children
+        // are already cached. This keeps the recursion depth bounded no matter how long a chain of
+        // child references is (otherwise a chain of ignored entries recurses once per entry and can
+        // overflow the stack).
+        let intersects = entry_intersection_cache.intersects(order, subset_definition);
+
         if e.ignored {
             continue;
         }
 
-        if !entry_intersection_cache.intersects(order, subset_definition) {
+        if !intersects {
             continue;
         }
 
